@@ -297,6 +297,12 @@ pub fn make_units(fams: &[Family], cache: &mut CleanCache, seed: u64, thorough: 
     for (fi, fam) in fams.iter().enumerate() {
         let names: Vec<String> = fam.versions.iter().map(|(n, _)| n.clone()).collect();
         let wf: Vec<String> = names.iter().filter(|n| well_formed(fams, cache, fi, n)).cloned().collect();
+        if wf.len() < 2 {
+            // a hand-written family that does not compile is a mistake of the harness, a generated
+            // one that the compiler rejects simply contributes nothing
+            assert!(fam.name.starts_with("gen"), "family {} has fewer than two well-formed versions", fam.name);
+            continue;
+        }
         let mut pairs: Vec<(Option<String>, String)> = Vec::new();
         for a in &wf {
             for b in &names {
@@ -551,7 +557,14 @@ pub fn run_unit(stats: &mut ShardStats, fams: &[Family], cache: &mut CleanCache,
 
 /// Seeded longer histories through the real kill path (thorough tier and a small quick sample).
 pub fn random_history(fams: &[Family], cache: &mut CleanCache, rng: &mut Rng) -> History {
-    let fi = rng.usize_below(fams.len());
+    // a family with at least one well-formed version (generated families may have none)
+    let mut fi = rng.usize_below(fams.len());
+    for _ in 0..fams.len() {
+        if fams[fi].versions.iter().any(|(_, t)| cache.get(&fams[fi].name, t, false).is_some()) {
+            break;
+        }
+        fi = (fi + 1) % fams.len();
+    }
     let fam = &fams[fi];
     let component = rng.chance(2, 3);
     let n = rng.range(3, 12) as usize;
